@@ -34,14 +34,19 @@ def run(prog, rep, tier):
                   "is reset with the pull), so alternatives are served left to right for every input, not rotated by earlier inputs; "
                   "Y2: the scanner fields that only matter inside %( ... %) (level, in_string) are set to their initial value whenever that start "
                   "condition is entered or provably restored whenever it is left (typestate over the flex actions), so every splice of a format "
-                  "string is scanned independently of the previous one; E3: op_or::next interpreted from source with an abstract upstream of two inputs and 1-3 abstract branches that yield 0, 1 or 2 "
+                  "string is scanned independently of the previous one; E9: the op engine interpreted as a whole (build_exec/build_pred, every op's constructor / next / state_con / state_des, layout, "
+                  "bindings, up-references, the stack class; per-execution state as typed tables per state area; RAII guards, optional and unique_ptr ownership "
+                  "modelled) on ~900 (thorough ~2500) query trees over all constructs - juxtaposition, `,`, `||`, assertions, captures, sub-expressions, if-else, "
+                  "closures, lexical names, blocks and apply, format strings - with abstract builtin words, against an independent reference implementation of "
+                  "the documented meaning: same stacks, same order, exhaustion afterwards, every state slot destroyed; "
+                  "E3: op_or::next interpreted from source with an abstract upstream of two inputs and 1-3 abstract branches that yield 0, 1 or 2 "
                   "stacks per input (all combinations): per input exactly all results of the first branch that yields anything; "
                   "R8: in every function that holds a reference into the per-execution state "
                   "area (scon::get), a field handed with std::move to a by-value or && parameter (smart pointers excepted: their moved-from state "
                   "is the `none` the op tests) is assigned, emplaced or reset again on every CFG path to the exit (a value cached for the current "
                   "input, e.g. the suffix a format splice appends to every result, is still intact for the next result); positive control under /verif/controls.")
-    rep.not_decided = ("that the yielded multiset equals the documented meaning of each construct and the left-to-right order of results "
-                       "(run-time values; needs execution).")
+    rep.not_decided = ("query trees outside the enumerated family (deeper nesting than two levels beyond the curated ones), the builtin words themselves (decided per "
+                       "word under C05-C07, C09, C11, C16-C18), and the parser's translation of text into trees (C15).")
     apply(rep, "R1", "no exhaustion latch in next()", r_stream.r1(prog), 60)
     apply(rep, "R4", "origin/chain/layout pairing", r_stream.r4(prog), 17)
     apply(rep, "R5", "per-input accumulators reset on new input", r_stream.r5(prog), 3)
@@ -58,6 +63,8 @@ def run(prog, rep, tier):
     apply(rep, "R6", "a new input is pulled for an ALT-list only by its first branch (left-to-right per input)", r_stream.r6(prog), 1)
     import r_lex
     apply(rep, "Y2", "scanner fields local to a start condition are initialised when it is entered", r_lex.y2(prog), 2)
+    e9 = r_stream.e9(prog, tier)
+    apply(rep, "E9", "the op engine as a whole yields exactly the stacks the documented meaning of the constructs gives, in order, for ~400 (quick) / 2500 (thorough) query trees (build.cc and op.cc interpreted end to end against a reference semantics)", e9, 10)
     if tier == "thorough" and not os.environ.get("VERIF_NO_MUTANTS"):
         import mutants
         mutants.run_mutants("C01", rep)
